@@ -197,7 +197,7 @@ func ctxFor(host string) context.Context {
 }
 
 func TestPropNoCrossClusterDecisions(t *testing.T) {
-	sub := stats.NewSub("request-sequences-over-hosts", "rapid: 2-3 clusters x 1-2 hosts each, per-cluster answer tables (token -> user / reject / error; (user, attributes) -> allow / deny / no opinion / error) that differ between clusters for the same key, cache TTLs in {0, 50 ms, 10 min}; a sequence of 5-40 ops: authenticate(host, token), authorize(host, user, attributes), cluster cannot be asked on/off, stop + recreate a cluster with new tables, an alias re-homed to another cluster, and the same token / (user, attributes) presented to two clusters at the same time (the first review is held at its cluster until the second request was decided); oracle: every result is the answer of the host's own cluster (the user name carries the cluster id), only that cluster's API is invoked during the request, a cluster that cannot be asked yields not-authenticated / deny with an error; non-trivial = the same token / (user, attributes) was presented to >= 2 clusters with different answers while caching is on; distinct by FNV-64 of the op trace")
+	sub := stats.NewSub("request-sequences-over-hosts", "rapid: 2-3 clusters x 1-2 hosts each, per-cluster answer tables (token -> user / reject / error; (user, attributes) -> allow / deny / no opinion / error) that differ between clusters for the same key, cache TTLs in {0, 50 ms, 10 min}; a sequence of 5-40 ops: authenticate(host, token), authorize(host, user, attributes), cluster cannot be asked on/off, stop + recreate a cluster with new tables, an alias re-homed to another cluster (also while a review for it is in flight at the old cluster: later requests must get the new cluster's answer), and the same token / (user, attributes) presented to two clusters at the same time (the first review is held at its cluster until the second request was decided); oracle: every result is the answer of the host's own cluster (the user name carries the cluster id), only that cluster's API is invoked during the request, a cluster that cannot be asked yields not-authenticated / deny with an error; non-trivial = the same token / (user, attributes) was presented to >= 2 clusters with different answers while caching is on; distinct by FNV-64 of the op trace")
 	known := findings.Open(aliasMoveFinding)
 	stats.Check(t, stats.N(1500, 10000), func(t *rapid.T) {
 		p := &provider{hosts: map[string]*clusterSim{}}
@@ -315,7 +315,7 @@ func TestPropNoCrossClusterDecisions(t *testing.T) {
 		}
 		steps := rapid.IntRange(5, 40).Draw(t, "steps")
 		for i := 0; i < steps; i++ {
-			switch rapid.IntRange(0, 13).Draw(t, "op") {
+			switch rapid.IntRange(0, 15).Draw(t, "op") {
 			case 0:
 				c := rapid.IntRange(0, nClusters-1).Draw(t, "cluster")
 				sims[c].unavailable = !sims[c].unavailable
@@ -373,6 +373,76 @@ func TestPropNoCrossClusterDecisions(t *testing.T) {
 					}
 				}
 				judgeAuthn(t, h, tok, s, resp, ok, err)
+			case 14, 15:
+				// an alias is re-homed to another cluster WHILE a review for it is in flight at its old cluster; the late
+				// answer of the old cluster must not decide later requests for the alias
+				h := rapid.SampledFrom(hosts).Draw(t, "host")
+				if !strings.HasPrefix(h, "alias") || known {
+					continue
+				}
+				from := owner[h]
+				to := rapid.IntRange(0, nClusters-1).Draw(t, "to")
+				if to == from || sims[from].unavailable || sims[to].unavailable {
+					continue
+				}
+				isToken := rapid.Bool().Draw(t, "tokenReview")
+				tok := rapid.SampledFrom(tokens).Draw(t, "token")
+				u := rapid.SampledFrom(users).Draw(t, "user")
+				a := sarAttrs[rapid.IntRange(0, len(sarAttrs)-1).Draw(t, "attrs")]
+				a.User = &user.DefaultInfo{Name: u}
+				type res struct {
+					resp   *authenticator.Response
+					ok     bool
+					dec    authorizer.Decision
+					reason string
+					err    error
+				}
+				call := func() res {
+					if isToken {
+						resp, ok, err := authn.AuthenticateToken(ctxFor(h), tok)
+						return res{resp: resp, ok: ok, err: err}
+					}
+					dec, reason, err := authz.Authorize(ctxFor(h), a)
+					return res{dec: dec, reason: reason, err: err}
+				}
+				sOld, sNew := sims[from], sims[to]
+				gate, arrived := make(chan struct{}), make(chan struct{}, 1)
+				p.mu.Lock()
+				sOld.gate, sOld.arrived = gate, arrived
+				p.mu.Unlock()
+				d1 := make(chan res, 1)
+				go func() { d1 <- call() }()
+				inFlight := false
+				select {
+				case <-arrived:
+					inFlight = true
+				case r := <-d1: // decided from the cache
+					d1 <- r
+				case <-time.After(5 * time.Second):
+				}
+				p.mu.Lock()
+				p.hosts[h] = sNew
+				p.mu.Unlock()
+				owner[h] = to
+				r2 := call() // resolves to the new cluster
+				p.mu.Lock()
+				sOld.gate, sOld.arrived = nil, nil
+				p.mu.Unlock()
+				close(gate)
+				<-d1 // the request that started under the old binding: either cluster's answer is acceptable
+				r3 := call()
+				if isToken {
+					trace += fmt.Sprintf("move-during-authn(%s->c%d,%s)=%v,%v;", h, to, tok, r2.ok, r3.ok)
+					judgeAuthn(t, h, tok, sNew, r2.resp, r2.ok, r2.err)
+					judgeAuthn(t, h, tok, sNew, r3.resp, r3.ok, r3.err)
+				} else {
+					trace += fmt.Sprintf("move-during-authz(%s->c%d,%s)=%v,%v;", h, to, attrKey(u, a), r2.dec, r3.dec)
+					judgeAuthz(t, u, a, sNew, r2.dec, r2.reason, r2.err)
+					judgeAuthz(t, u, a, sNew, r3.dec, r3.reason, r3.err)
+				}
+				if inFlight {
+					sub.Class("alias-moved-while-a-review-is-in-flight")
+				}
 			case 12, 13:
 				// the same token / the same (user, attributes) is presented to two clusters AT THE SAME TIME: the review of
 				// the first request is held at its cluster until the second request was decided (or 150 ms passed)
